@@ -37,6 +37,38 @@ type pieceCtx struct {
 	data, bitmapF, state      *types.Var
 	peers, deleted, count, mu *types.Var
 	ok                        bool
+	rv                        *revalidator
+}
+
+// factCall: the fact "Piece method `name` returned `want`" (plain or atomic accessor), tested under the lock.
+func (c *pieceCtx) factCall(name string, want bool, need LockSet) lockedFact {
+	return lockedFact{
+		name: fmt.Sprintf("%s() == %v under the lock", name, want),
+		need: need,
+		edge: func(cond ssa.Value, pol bool) bool {
+			return pieceMethodCall2(cond, name) != nil && pol == want
+		},
+	}
+}
+
+// factDataNonNil: the fact "the piece has a buffer" (Piece.data != nil).
+func (c *pieceCtx) factDataNonNil() lockedFact {
+	return lockedFact{
+		name: "data != nil under the lock",
+		need: LW | LR,
+		edge: func(cond ssa.Value, pol bool) bool {
+			bo, ok := cond.(*ssa.BinOp)
+			if !ok || !(isNilConst(bo.Y) || isNilConst(bo.X)) {
+				return false
+			}
+			x := bo.X
+			if isNilConst(x) {
+				x = bo.Y
+			}
+			fv, _ := loadedField(x)
+			return fv == c.data && ((bo.Op == token.NEQ && pol) || (bo.Op == token.EQL && !pol))
+		},
+	}
 }
 
 func newPieceCtx(r *Report, rule string) *pieceCtx {
@@ -56,9 +88,9 @@ func newPieceCtx(r *Report, rule string) *pieceCtx {
 	return c
 }
 
+// isUnlock: in releases the mutex, itself or through a package-local callee.
 func (c *pieceCtx) isUnlock(in ssa.Instruction) bool {
-	op, ok := c.la.lockOp(in)
-	return ok && op == LU
+	return c.la.mayUnlock(in)
 }
 
 // pieceMethodCall: in is a call of unexported Piece method `name` (complete, busy, busyOrComplete, setState…).
@@ -255,17 +287,8 @@ func (c *pieceCtx) r2(rule string) {
 				r.Fail(rule, key, u.In.Pos(), "piece bytes are copied out in lock state {%s}: the copy must run with the lock held, or eviction/deletion can free (munmap) the buffer under the reader", st)
 				continue
 			}
-			g := guardCall(u.In.Block(), "complete", true)
-			if g == nil {
-				r.Fail(rule, key, u.In.Pos(), "the copy out of the piece buffer is not dominated by complete() == true: data of an incomplete, busy or failed piece could be returned")
-				continue
-			}
-			if gs := c.la.At(g); gs&LU != 0 || gs == 0 {
-				r.Fail(rule, key, g.Pos(), "complete() is tested in lock state {%s}: the state can change before the copy", gs)
-				continue
-			}
-			if pathHas(g, u.In, c.isUnlock) {
-				r.Fail(rule, key, u.In.Pos(), "the lock is released between the complete() test and the copy")
+			if ok, where := c.reval().establishedAt(u.In, c.factCall("complete", true, LR|LW), 0); !ok {
+				r.Fail(rule, key, u.In.Pos(), "the copy out of the piece buffer is not preceded, on every path %s, by complete() == true tested under the lock: data of an incomplete, busy, failed or evicted piece could be returned", where)
 				continue
 			}
 			// the data loaded must be loaded under the same lock hold
@@ -331,15 +354,11 @@ func (c *pieceCtx) r3(rule string) {
 		case to == stBusy:
 			// made under W, after the busyOrComplete re-check in the same lock hold (R4)
 			st := c.la.At(cs)
-			g := guardCall(cs.Block(), "busyOrComplete", false)
-			switch {
-			case st != LW:
+			if st != LW {
 				r.Fail(rule, key, cs.Pos(), "the busy transition is made in lock state {%s}, not write-locked", st)
-			case g == nil:
-				r.Fail(rule, key, cs.Pos(), "the busy transition is not dominated by !busyOrComplete()")
-			case c.la.At(g) != LW || pathHas(g, cs, c.isUnlock):
-				r.Fail(rule, key, cs.Pos(), "the !busyOrComplete() test that guards the busy transition is not made in the same write-lock hold")
-			default:
+			} else if ok, where := c.reval().establishedAt(cs.(ssa.Instruction), c.factCall("busyOrComplete", false, LW), 0); !ok {
+				r.Fail(rule, key, cs.Pos(), "the busy transition is not preceded, on every path %s, by !busyOrComplete() tested in the same write-lock hold", where)
+			} else {
 				r.Ok(rule, key, cs.Pos(), "incomplete→busy under the write lock, after the re-check")
 			}
 		default:
@@ -466,17 +485,8 @@ func (c *pieceCtx) r4(rule string) {
 			r.Fail(rule, key, in.Pos(), "%s in lock state {%s}, not write-locked", what, st)
 			return
 		}
-		g := guardCall(in.Block(), "busyOrComplete", false)
-		if g == nil {
-			r.Fail(rule, key, in.Pos(), "%s is not dominated by the !busyOrComplete() re-check: data of a piece that is being hashed or is already verified can be modified", what)
-			return
-		}
-		if c.la.At(g) != LW {
-			r.Fail(rule, key, g.Pos(), "the busyOrComplete() re-check that guards %s is made in lock state {%s}: the unlocked pre-check alone does not exclude a concurrent Finalise", what, c.la.At(g))
-			return
-		}
-		if pathHas(g, in, c.isUnlock) {
-			r.Fail(rule, key, in.Pos(), "the lock is released between the busyOrComplete() re-check and %s", what)
+		if ok, where := c.reval().establishedAt(in, c.factCall("busyOrComplete", false, LW), 0); !ok {
+			r.Fail(rule, key, in.Pos(), "%s is not preceded, on every path %s, by the !busyOrComplete() re-check made under the write lock: data of a piece that is being hashed or is already verified can be modified (the unlocked pre-check alone does not exclude a concurrent Finalise)", what, where)
 			return
 		}
 		r.Ok(rule, key, in.Pos(), "%s happens write-locked after the re-check, with no unlock in between", what)
@@ -527,64 +537,17 @@ func (c *pieceCtx) r5(rule string) {
 				r.Fail(rule, key, u.In.Pos(), "the buffer is freed in lock state {%s}, not write-locked: a reader holding the read lock can be copying from it", st)
 				continue
 			}
-			g := guardCall(u.In.Block(), "busy", false)
-			if g == nil {
-				r.Fail(rule, key, u.In.Pos(), "alloc.Free is not dominated by busy() == false: the buffer can be freed (munmap) while the hasher reads it")
+			if ok, where := c.reval().establishedAt(u.In, c.factCall("busy", false, LW), 0); !ok {
+				r.Fail(rule, key, u.In.Pos(), "alloc.Free is not preceded, on every path %s, by busy() == false tested in the same write-lock hold: the buffer can be freed (munmap) while the hasher reads it", where)
 				continue
 			}
-			if pathHas(g, u.In, c.isUnlock) {
-				r.Fail(rule, key, u.In.Pos(), "the lock is released between the busy() test and alloc.Free")
+			// data != nil, tested in the same lock hold: a test made before the lock was dropped says nothing
+			// (Finalise may have freed the piece meanwhile)
+			if ok, where := c.reval().establishedAt(u.In, c.factDataNonNil(), 0); !ok {
+				r.Fail(rule, key+"/nil-test-same-hold", u.In.Pos(), "alloc.Free is not preceded, on every path %s, by a data != nil test made in the same lock hold: if the piece was freed meanwhile (Finalise on a hash mismatch) it is freed and un-counted a second time", where)
 				continue
 			}
-			// data != nil
-			nonNil := false
-			for _, gg := range guardsOf(u.In.Block()) {
-				gg = gg.norm()
-				if bo, ok := gg.Cond.(*ssa.BinOp); ok && isNilConst(bo.Y) {
-					if fv, _ := loadedField(bo.X); fv == c.data && ((bo.Op == token.EQL && !gg.Pol) || (bo.Op == token.NEQ && gg.Pol)) {
-						nonNil = true
-					}
-				}
-			}
-			if !nonNil {
-				r.Fail(rule, key, u.In.Pos(), "alloc.Free is not dominated by data != nil (double free)")
-				continue
-			}
-			// ... tested in the same lock hold: every path from a lock release to the free re-tests data != nil
-			// (a test made before the lock was dropped says nothing: Finalise may have freed the piece meanwhile)
-			{
-				free := u.In
-				isNilEdge := edgeReq{Name: "data != nil after re-locking", Match: func(cond ssa.Value, pol bool) bool {
-					bo, ok := cond.(*ssa.BinOp)
-					if !ok || !(isNilConst(bo.Y) || isNilConst(bo.X)) {
-						return false
-					}
-					x := bo.X
-					if isNilConst(x) {
-						x = bo.Y
-					}
-					fv, _ := loadedField(x)
-					return fv == c.data && ((bo.Op == token.NEQ && pol) || (bo.Op == token.EQL && !pol))
-				}}
-				stale := false
-				allInstrs(f, func(in ssa.Instruction) {
-					if !c.isUnlock(in) {
-						return
-					}
-					if _, isDefer := in.(*ssa.Defer); isDefer {
-						return
-					}
-					miss, reached := pathsMissing(in, -1, func(i ssa.Instruction) bool { return i == free }, nil, []edgeReq{isNilEdge})
-					if reached > 0 && len(miss) > 0 {
-						stale = true
-					}
-				})
-				if stale {
-					r.Fail(rule, key+"/nil-test-same-hold", u.In.Pos(), "the lock is released and re-acquired between the data != nil test and alloc.Free: if the piece was freed meanwhile (Finalise on a hash mismatch) it is freed and un-counted a second time")
-					continue
-				}
-				r.Ok(rule, key+"/nil-test-same-hold", u.In.Pos(), "every path from a lock release to alloc.Free re-tests data != nil")
-			}
+			r.Ok(rule, key+"/nil-test-same-hold", u.In.Pos(), "every path from the entry or from a lock release to alloc.Free re-tests data != nil")
 			// cleared before unlock/return
 			exits := exitsAvoiding(u.In, func(i ssa.Instruction) bool {
 				if st, ok := i.(*ssa.Store); ok {
@@ -734,7 +697,20 @@ func (c *pieceCtx) r6(rule string) {
 				locks = true
 			}
 		})
-		if !locks || f.Name() == "del" {
+		if !locks {
+			continue
+		}
+		if en := c.la.entry[f]; en != LU {
+			// a helper that is entered with the lock held (del, or a waiting loop extracted from it) and drops it
+			// temporarily: it must hand the lock back in the state it was entered in, on every return
+			n++
+			key := fmt.Sprintf("%s/returns-in-entry-state", fname(f))
+			ex := c.la.exitAfterDefers(f)
+			if en == LW && ex == LW || en == LR && ex == LR {
+				r.Ok(rule, key, f.Pos(), "entered in {%s} at every call site, returns in {%s} on every path", en, ex)
+			} else {
+				r.Fail(rule, key, f.Pos(), "%s is entered in lock state {%s} and returns in {%s}: callers continue as if the lock were held as before the call", fname(f), en, ex)
+			}
 			continue
 		}
 		n++
